@@ -227,9 +227,10 @@ pub fn history(ctx: &mut Ctx, rng: &mut Rng) {
             10 | 11 => {
                 let i = if rng.chance(1, 8) { n + 1 + rng.below(3) } else { rng.urange(0, n) };
                 let b = rng.chance(1, 2);
-                hist.push(format!("s{s}.insert({i}, {})", b as u8));
+                let form = rng.below(2);
+                hist.push(format!("s{s}.insert({i}, {}) [form {form}]", b as u8));
                 let mut e = cm.clone(); if i <= n { e.insert(i, b) }
-                judge!("insert", i <= n && n < MAX, e.clone(), s, { let mut x = cur; x.insert(i, to_bit(b)); x });
+                judge!("insert", i <= n && n < MAX, e.clone(), s, { let mut x = cur; if form == 0 { x.insert(i, to_bit(b)) } else if b { x.insert_1(i) } else { x.insert_0(i) }; x });
             }
             12 | 13 => {
                 let i = if n == 0 || rng.chance(1, 8) { n + rng.below(3) } else { rng.below(n) };
@@ -240,9 +241,10 @@ pub fn history(ctx: &mut Ctx, rng: &mut Rng) {
             14 => {
                 let i = if n == 0 || rng.chance(1, 8) { n + rng.below(3) } else { rng.below(n) };
                 let b = rng.chance(1, 2);
-                hist.push(format!("s{s}.set({i}, {})", b as u8));
+                let form = rng.below(2);
+                hist.push(format!("s{s}.set({i}, {}) [form {form}]", b as u8));
                 let mut e = cm.clone(); if i < n { e[i] = b }
-                judge!("set", i < n, e.clone(), s, { let mut x = cur; x.set(i, to_bit(b)); x });
+                judge!("set", i < n, e.clone(), s, { let mut x = cur; if form == 0 { x.set(i, to_bit(b)) } else if b { x.set_1(i) } else { x.set_0(i) }; x });
             }
             15 => {
                 let l = if rng.chance(1, 8) { n + 1 + rng.below(3) } else { rng.urange(0, n) };
